@@ -53,6 +53,9 @@ QUERY_FNS = [
 
 IMPORT_QUERIES = ["parse", "make_contr", "from_pyscf", "from_iodata"]
 
+CLS_NAMES = ["Overlap", "KineticEnergyIntegral", "MomentumIntegral", "Moment", "Eval", "EvalDeriv",
+             "PointChargeIntegral", "AngularMomentumIntegral", "OverlapAsymmetric", "ElectronRepulsionIntegral"]
+
 NP_MODES = ["ignore", "warn", "raise", "call"]
 
 
@@ -592,9 +595,7 @@ def g_query(rng, cfg, fn=None):
         "symmetric": rng.random() < 0.5,
         "charges": rng.choice(["random", "random", "ghost", "ints"]),
         "dm": rng.choice(["psd", "psd", "indef", "zero", "nearsym"]),
-        "cls": rng.choice(["Overlap", "KineticEnergyIntegral", "MomentumIntegral", "Moment", "Eval", "EvalDeriv",
-                           "PointChargeIntegral", "AngularMomentumIntegral", "OverlapAsymmetric",
-                           "ElectronRepulsionIntegral"]),
+        "cls": rng.choice(CLS_NAMES),
         "method": rng.choice(["cartesian", "spherical", "mix", "lincomb"]),
         "same_points_nuclei": rng.random() < 0.3,
         "same_basis": rng.random() < 0.4,
@@ -660,7 +661,11 @@ SWEEP_CHUNK = 24
 def sweep_targets(profile):
     if profile == "C18":
         return ["parse", "make_contr", "from_pyscf"]
-    return [q[0] for q in QUERY_FNS] + ["make_contr", "from_pyscf", "parse", "from_iodata", "update", "ctor"]
+    fns = [q[0] for q in QUERY_FNS if not q[0].startswith("cls_")]
+    # the class-level API is swept per (class, method): 10 x 4 assemblers and 10 block routines
+    cls_targets = ["cls_array:%s:%s" % (c, m) for c in CLS_NAMES for m in ("cartesian", "spherical", "mix", "lincomb")]
+    cls_targets += ["cls_contraction:%s" % c for c in CLS_NAMES]
+    return fns + ["make_contr", "from_pyscf", "parse", "from_iodata", "update", "ctor"] + cls_targets
 
 
 def gen_sweep(seed, profile):
@@ -708,6 +713,13 @@ def gen_sweep(seed, profile):
         q["what"] = rng.choice(["coeffs", "exps", "angmom"])
     elif target == "ctor":
         q = g_ctor(rng, cfg2)
+    elif target.startswith("cls_"):
+        parts = target.split(":")
+        q = g_query(rng, cfg2, fn=parts[0])
+        q["params"]["cls"] = parts[1]
+        if len(parts) > 2:
+            q["params"]["method"] = parts[2]
+        q["keep"] = None
     else:
         q = g_query(rng, cfg2, fn=target)
         q["keep"] = None
